@@ -1263,6 +1263,28 @@ func (s *Sim) enterSerial() bool {
 			return false // a call could not be completed: nothing to judge
 		}
 	}
+	// The structure tracked during the burst must agree with the environment's
+	// ground truth before the model is trusted again: every channel's current
+	// connection alive, every other live connection a pending replacement.
+	live, pending := 0, 0
+	for _, sc := range s.env.Conns {
+		if !sc.Removed && !sc.ShutdownSent {
+			live++
+		}
+	}
+	for _, ch := range m.chans {
+		if ch.gone || ch.cur >= len(s.env.Conns) || s.env.Conns[ch.cur].Removed {
+			s.res.Count("post_burst_skipped_inconsistent", 1)
+			return false
+		}
+		if ch.refreshing {
+			pending++
+		}
+	}
+	if live != len(m.chans)+pending {
+		s.res.Count("post_burst_skipped_inconsistent", 1)
+		return false
+	}
 	for _, c := range s.calls {
 		if c.Invoked && !c.Returned {
 			return false
